@@ -754,15 +754,24 @@ func breakWaitingChildren(context *layoutContext, box Box, bottomSpace pr.Float,
 				continue
 			}
 			if !breaksAt(0) {
-				// A child that breaks in a given width also breaks in a smaller one:
-				// look for the first breaking step by bisection, instead of
-				// rendering the child again for each pixel of its width.
-				low, high := 1, steps-1
-				if high < low || !breaksAt(high) {
+				// A child that breaks in a given width also breaks in a smaller one,
+				// as long as some room is left (the very last steps may leave none
+				// to the content, which is then not broken at all).
+				// Instead of rendering the child again for each pixel of its width,
+				// look for a breaking step from the narrow end, then for the
+				// first breaking step by bisection.
+				high := -1
+				for back := 1; steps-back >= 1; back *= 2 {
+					if breaksAt(steps - back) {
+						high = steps - back
+						break
+					}
+				}
+				if high == -1 {
 					// No line break found
 					continue
 				}
-				for low < high {
+				for low := 1; low < high; {
 					if mid := (low + high) / 2; breaksAt(mid) {
 						high = mid
 					} else {
